@@ -235,6 +235,38 @@ def run(tier, v):
                 # frames the tls pool cannot route are dropped without counting as dispatched
                 unroutable = sum(1 for fr in sum(run_["frames"], []) if len(fr) // 2 < 54 or bytes.fromhex(fr)[23] != 6)
             f.write(json.dumps({"k": "st", "dispatched": o["stats"]["dispatched"], "dropped": o["stats"]["dropped"], "unroutable": unroutable, "run": o["id"]}) + "\n")
+    # ---- accounting under load: 8 dispatcher threads x thousands of calls at once (not recorded one by one, so that nothing keeps the
+    # threads apart), queues that overflow and queues that do not; the counters must be exactly the ones the outcomes imply
+    slines, smeta = [], []
+    base_frames = [frame((10, 9, d, c + 1), (10, 8, 0, 1), 30000 + c, 80, (d * 16 + c) & 0xffff, flags=0x18, payload=b"z" * c).hex() for d in range(8) for c in range(6)]
+    for crate in ("tcp", "http", "tls"):
+        for qs in (2, 8192):
+            smeta.append({"crate": crate, "queue": qs})
+            slines.append({"id": len(slines), "crate": crate, "workers": 3, "queue": qs, "batch": 4, "timeout_ms": 5, "matcher": False, "perturb": 0, "record": False,
+                           "rounds": 1500 if tier == "thorough" else 400, "dispatchers": [base_frames[d * 6:(d + 1) * 6] for d in range(8)]})
+    sreq = os.path.join(wd, "stress.req")
+    vlib.write_ndjson(sreq, slines)
+    sout = os.path.join(wd, "stress.out")
+    vlib.run_hv("pool", sreq, sout, timeout=3000)
+    strace = os.path.join(wd, "stress.trace.ndjson")
+    n_stress = 0
+    with open(strace, "w") as f:
+        for o in vlib.read_ndjson(sout):
+            m_ = smeta[o["id"]]
+            if "panic" in o:
+                v.violation({"part": "accounting under load", "run": m_, "observed": "panic: " + o["panic"]})
+                continue
+            if o.get("skipped"):
+                continue
+            nq = sum(1 for oc in o["outcomes"] for x in oc if x == "queued")
+            nd = sum(1 for oc in o["outcomes"] for x in oc if x != "queued")
+            n_stress += nq + nd
+            f.write(json.dumps({"crate": m_["crate"], "queue": m_["queue"], "nq": nq, "nd": nd, "unroutable": 0, "taken": sum(1 for e in o["events"] if e["kind"] == 0),
+                                "dispatched": o["stats"]["dispatched"], "dropped": o["stats"]["dropped"], "worker_dropped": sum(w["dropped"] for w in o["stats"]["workers"])}) + "\n")
+    r4 = vlib.tlc("TV_C18b", pid=PID, workers=1, env={"TRACE": strace}, timeout=600, coverage=False)
+    for b in r4.lines.get("BAD", []):
+        v.violation({"part": "accounting under load", "crate": b["crate"], "queue_size": b["queue"], "dispatch_calls_that_returned_queued": b["nq"], "returned_dropped": b["nd"], "packets_taken_by_workers": b["taken"],
+                     "stats_total_dispatched": b["dispatched"], "stats_total_dropped": b["dropped"], "sum_of_per_worker_dropped": b["worker_dropped"]})
     r3 = vlib.tlc("TV_Pool", pid=PID, workers=1, dfs=True, env={"TRACE": ptrace}, timeout=1800, coverage=False)
     if tier == "thorough":
         def mut2(rows):
